@@ -130,6 +130,16 @@ def make_runner(c, f, mutate, sink, fixed=None, case=None):
                     pass
         args = [env[p] for p in params if p in env]
         kw = {}
+        if c.at_return is not None:
+            rnode, _ = function_ast(c.at_return)
+            rnames = [a_.arg for a_ in rnode.args.args]
+
+            def hook(fr, retval):
+                vals = dict(fr.env)
+                vals['result'] = retval
+                if all(nm in vals for nm in rnames):
+                    eval_cfn(ip, c.at_return, vals, old_heap)
+            ip.at_return_hook = hook
         try:
             try:
                 result = ip.run_function(node, f.__globals__, c.target, args, kw, closure, f)
@@ -397,7 +407,7 @@ def _solve(ob, both):
         ctx = ob.ctx
         if ctx is not None:
             try:
-                nargs = {name: b.from_model(ctx['ip'], m, ctx['env'][name]) for name, b in ctx['sig'].items() if not isinstance(b, api.Const)}
+                nargs = {name: b.from_model(ctx['ip'], m, ctx['env'][name]) for name, b in ctx['sig'].items() if not isinstance(b, api.Const) and not getattr(b, 'no_pickle', False)}
                 out['nargs'] = pickle.dumps(nargs)
             except Exception as ex:
                 out['nargs_error'] = 'model concretisation failed: %r' % ex
@@ -794,6 +804,8 @@ def replay_failed(c, f, ob):
         for name, b in c.sig.items():
             if isinstance(b, api.Const):
                 nargs[name] = b.v
+            elif getattr(b, 'no_pickle', False):
+                nargs[name] = b.sample(random.Random(0))
     except Exception as ex:
         return {'inputs': None, 'error': 'cannot unpickle inputs: %r' % ex}
     shown = repr({k: _norm_native(v) for k, v in nargs.items() if not isinstance(c.sig.get(k), api.Const)})[:3000]
